@@ -237,8 +237,259 @@ def transform_tree(source, how):
             def visit_Lambda(self, node):
                 return node
         tree = H().visit(tree)
+    else:
+        tree = transform_tree2(tree, how)
     ast.fix_missing_locations(tree)
     return ast.unparse(tree) + '\n'
+
+
+TREE2 = ('NOTIN', 'TUPSPLIT', 'IFEXPSTMT', 'WHILEBRK', 'COMPLOOP', 'LAMBDADEF', 'NPALIAS', 'ELSEWRAP', 'ELSEUNWRAP', 'CHAINCMP', 'RANGE0',
+         'EMPTYLIT')
+SITES = {}
+
+
+def transform_tree2(tree, how):
+    """second family of behaviour-preserving whole-tree rewrites
+       NOTIN      a not in b -> not (a in b);  a is not b -> not (a is b)
+       TUPSPLIT   a, b = x, y -> a = x; b = y            (no target name read by any right-hand side)
+       IFEXPSTMT  v = A if c else B -> if c: v = A else: v = B   (also return)
+       WHILEBRK   while c: S -> while True: if not c: break; S   (no else clause)
+       COMPLOOP   v = [e for ..] -> v = []; for ..: v.append(e)  (also dict / set comprehensions; loop variables get fresh names)
+       LAMBDADEF  f = lambda a: e -> def f(a): return e
+       NPALIAS    import numpy as np -> import numpy; np.x -> numpy.x
+       ELSEWRAP   if c: ..return; REST -> if c: ..return else: REST
+       ELSEUNWRAP if c: ..return else: REST -> if c: ..return; REST
+       CHAINCMP   a <= b <= c -> a <= b and b <= c      (b side-effect free)
+       RANGE0     range(n) -> range(0, n)
+       EMPTYLIT   {} -> dict(); [] -> list()"""
+    import ast
+    count = [0]
+
+    def pure(e):
+        return not any(isinstance(n, (ast.Call, ast.Yield, ast.Await, ast.NamedExpr)) for n in ast.walk(e))
+    JUMP = (ast.Return, ast.Raise, ast.Continue, ast.Break)
+    if how == 'NOTIN':
+        class N(ast.NodeTransformer):
+            def visit_Compare(self, node):
+                self.generic_visit(node)
+                if len(node.ops) == 1 and isinstance(node.ops[0], (ast.NotIn, ast.IsNot)):
+                    count[0] += 1
+                    op = ast.In() if isinstance(node.ops[0], ast.NotIn) else ast.Is()
+                    return ast.UnaryOp(op=ast.Not(), operand=ast.Compare(left=node.left, ops=[op], comparators=node.comparators))
+                return node
+        tree = N().visit(tree)
+    elif how == 'TUPSPLIT':
+        class T(ast.NodeTransformer):
+            def visit_Assign(self, st):
+                if len(st.targets) == 1 and isinstance(st.targets[0], ast.Tuple) and isinstance(st.value, ast.Tuple) \
+                        and len(st.targets[0].elts) == len(st.value.elts) and all(isinstance(t, ast.Name) for t in st.targets[0].elts) \
+                        and not any(isinstance(v, ast.Starred) for v in st.value.elts):
+                    tn = {t.id for t in st.targets[0].elts}
+                    if len(tn) == len(st.targets[0].elts) and not any(isinstance(x, ast.Name) and x.id in tn for v in st.value.elts for x in ast.walk(v)) \
+                            and all(pure(v) for v in st.value.elts):
+                        count[0] += 1
+                        return [ast.Assign(targets=[t], value=v, lineno=st.lineno, col_offset=st.col_offset)
+                                for t, v in zip(st.targets[0].elts, st.value.elts)]
+                return st
+        tree = T().visit(tree)
+    elif how == 'IFEXPSTMT':
+        class I(ast.NodeTransformer):
+            def visit_Lambda(self, node):
+                return node
+
+            def visit_Assign(self, st):
+                if isinstance(st.value, ast.IfExp) and len(st.targets) == 1 and isinstance(st.targets[0], ast.Name):
+                    count[0] += 1
+                    e = st.value
+                    mk = lambda v: ast.Assign(targets=[ast.Name(id=st.targets[0].id, ctx=ast.Store())], value=v, lineno=st.lineno, col_offset=0)
+                    return ast.If(test=e.test, body=[mk(e.body)], orelse=[mk(e.orelse)], lineno=st.lineno, col_offset=0)
+                return st
+
+            def visit_Return(self, st):
+                if isinstance(st.value, ast.IfExp):
+                    count[0] += 1
+                    e = st.value
+                    return ast.If(test=e.test, body=[ast.Return(value=e.body)], orelse=[ast.Return(value=e.orelse)], lineno=st.lineno, col_offset=0)
+                return st
+        tree = I().visit(tree)
+    elif how == 'WHILEBRK':
+        class W(ast.NodeTransformer):
+            def visit_While(self, st):
+                self.generic_visit(st)
+                if not st.orelse and not isinstance(st.test, ast.Constant):
+                    count[0] += 1
+                    t = st.test
+                    neg = t.operand if isinstance(t, ast.UnaryOp) and isinstance(t.op, ast.Not) else ast.UnaryOp(op=ast.Not(), operand=t)
+                    st.body = [ast.If(test=neg, body=[ast.Break()], orelse=[])] + st.body
+                    st.test = ast.Constant(value=True)
+                return st
+        tree = W().visit(tree)
+    elif how == 'COMPLOOP':
+        COMPS = (ast.ListComp, ast.SetComp, ast.DictComp, ast.GeneratorExp)
+
+        class C(ast.NodeTransformer):
+            def __init__(self):
+                self.depth = 0
+                self.k = 0
+
+            def visit_FunctionDef(self, fn):
+                self.depth += 1
+                self.generic_visit(fn)
+                self.depth -= 1
+                return fn
+
+            def visit_Lambda(self, node):
+                return node
+
+            def visit_ClassDef(self, node):
+                d, self.depth = self.depth, 0
+                self.generic_visit(node)
+                self.depth = d
+                return node
+
+            def visit_Assign(self, st):
+                v = st.value
+                if not self.depth or len(st.targets) != 1 or not isinstance(st.targets[0], ast.Name) \
+                        or not isinstance(v, (ast.ListComp, ast.SetComp, ast.DictComp)):
+                    return st
+                tgt = st.targets[0].id
+                inner = [x for x in ast.walk(v) if x is not v]
+                if any(isinstance(x, COMPS + (ast.Lambda,)) for x in inner) or any(isinstance(x, ast.Name) and x.id == tgt for x in inner):
+                    return st
+                if any(g.is_async for g in v.generators):
+                    return st
+                bound = {x.id for g in v.generators for x in ast.walk(g.target) if isinstance(x, ast.Name)}
+                if bound & {x.id for x in ast.walk(v.generators[0].iter) if isinstance(x, ast.Name)}:
+                    return st
+                self.k += 1
+                count[0] += 1
+                ren = {b: '%s_l%d' % (b, self.k) for b in bound}
+                for x in inner:
+                    if isinstance(x, ast.Name) and x.id in ren:
+                        x.id = ren[x.id]
+                nm = lambda ctx: ast.Name(id=tgt, ctx=ctx)
+                if isinstance(v, ast.ListComp):
+                    init = ast.List(elts=[], ctx=ast.Load())
+                    leaf = ast.Expr(value=ast.Call(func=ast.Attribute(value=nm(ast.Load()), attr='append', ctx=ast.Load()), args=[v.elt], keywords=[]))
+                elif isinstance(v, ast.SetComp):
+                    init = ast.Call(func=ast.Name(id='set', ctx=ast.Load()), args=[], keywords=[])
+                    leaf = ast.Expr(value=ast.Call(func=ast.Attribute(value=nm(ast.Load()), attr='add', ctx=ast.Load()), args=[v.elt], keywords=[]))
+                else:
+                    init = ast.Dict(keys=[], values=[])
+                    leaf = ast.Assign(targets=[ast.Subscript(value=nm(ast.Load()), slice=v.key, ctx=ast.Store())], value=v.value, lineno=st.lineno,
+                                      col_offset=0)
+                body = [leaf]
+                for g in reversed(v.generators):
+                    for c in reversed(g.ifs):
+                        body = [ast.If(test=c, body=body, orelse=[])]
+                    body = [ast.For(target=g.target, iter=g.iter, body=body, orelse=[], lineno=st.lineno, col_offset=0)]
+                return [ast.Assign(targets=[nm(ast.Store())], value=init, lineno=st.lineno, col_offset=0)] + body
+        tree = C().visit(tree)
+    elif how == 'LAMBDADEF':
+        class L(ast.NodeTransformer):
+            def visit_Assign(self, st):
+                if len(st.targets) == 1 and isinstance(st.targets[0], ast.Name) and isinstance(st.value, ast.Lambda):
+                    count[0] += 1
+                    return ast.FunctionDef(name=st.targets[0].id, args=st.value.args, body=[ast.Return(value=st.value.body)], decorator_list=[],
+                                           returns=None, type_comment=None, type_params=[], lineno=st.lineno, col_offset=0)
+                return st
+        tree = L().visit(tree)
+    elif how == 'NPALIAS':
+        names = {x.id for x in ast.walk(tree) if isinstance(x, ast.Name)} | {a.arg for x in ast.walk(tree) if isinstance(x, ast.arguments)
+                                                                            for a in x.args + x.kwonlyargs}
+        if 'numpy' not in names:
+            for x in ast.walk(tree):
+                if isinstance(x, ast.Import):
+                    for a in x.names:
+                        if a.name == 'numpy' and a.asname == 'np':
+                            a.asname = None
+                            count[0] += 1
+            if count[0]:
+                for x in ast.walk(tree):
+                    if isinstance(x, ast.Name) and x.id == 'np':
+                        x.id = 'numpy'
+    elif how in ('ELSEWRAP', 'ELSEUNWRAP'):
+        def blocks(n):
+            for f in ('body', 'orelse', 'finalbody'):
+                b = getattr(n, f, None)
+                if isinstance(b, list) and b and isinstance(b[0], ast.stmt):
+                    yield f, b
+
+        def rewrite(block):
+            out = []
+            i = 0
+            while i < len(block):
+                st = block[i]
+                if isinstance(st, ast.If) and st.body and isinstance(st.body[-1], JUMP):
+                    if how == 'ELSEWRAP' and not st.orelse and i + 1 < len(block):
+                        count[0] += 1
+                        st.orelse = rewrite(block[i + 1:])
+                        out.append(st)
+                        return out
+                    if how == 'ELSEUNWRAP' and st.orelse:
+                        count[0] += 1
+                        rest = st.orelse
+                        st.orelse = []
+                        out.append(st)
+                        out.extend(rewrite(rest + block[i + 1:]))
+                        return out
+                out.append(st)
+                i += 1
+            return out
+
+        def walk(n):
+            for f, b in list(blocks(n)):
+                nb = rewrite(b)
+                setattr(n, f, nb)
+                for st in nb:
+                    walk(st)
+            if isinstance(n, ast.Try):
+                for h in n.handlers:
+                    h.body = rewrite(h.body)
+                    for st in h.body:
+                        walk(st)
+        walk(tree)
+    elif how == 'CHAINCMP':
+        class Ch(ast.NodeTransformer):
+            def visit_Compare(self, node):
+                self.generic_visit(node)
+                if len(node.ops) == 2 and pure(node.comparators[0]):
+                    count[0] += 1
+                    import copy
+                    mid = node.comparators[0]
+                    return ast.BoolOp(op=ast.And(), values=[ast.Compare(left=node.left, ops=[node.ops[0]], comparators=[mid]),
+                                                            ast.Compare(left=copy.deepcopy(mid), ops=[node.ops[1]], comparators=[node.comparators[1]])])
+                return node
+        tree = Ch().visit(tree)
+    elif how == 'RANGE0':
+        for x in ast.walk(tree):
+            if isinstance(x, ast.Call) and isinstance(x.func, ast.Name) and x.func.id == 'range' and len(x.args) == 1 and not x.keywords \
+                    and not isinstance(x.args[0], ast.Starred):
+                count[0] += 1
+                x.args = [ast.Constant(value=0), x.args[0]]
+    elif how == 'EMPTYLIT':
+        bound = {x.id for x in ast.walk(tree) if isinstance(x, ast.Name) and isinstance(x.ctx, ast.Store)} | \
+                {a.arg for x in ast.walk(tree) if isinstance(x, ast.arguments) for a in x.args + x.kwonlyargs}
+
+        class E(ast.NodeTransformer):
+            def visit_Dict(self, node):
+                self.generic_visit(node)
+                if not node.keys and 'dict' not in bound:
+                    count[0] += 1
+                    return ast.Call(func=ast.Name(id='dict', ctx=ast.Load()), args=[], keywords=[])
+                return node
+
+            def visit_List(self, node):
+                self.generic_visit(node)
+                if not node.elts and isinstance(node.ctx, ast.Load) and 'list' not in bound:
+                    count[0] += 1
+                    return ast.Call(func=ast.Name(id='list', ctx=ast.Load()), args=[], keywords=[])
+                return node
+        tree = E().visit(tree)
+    else:
+        raise AnalysisError('unknown whole-tree rewrite %s' % how)
+    SITES[how] = SITES.get(how, 0) + count[0]
+    return tree
 
 
 def apply(repo, m):
@@ -262,7 +513,7 @@ def apply(repo, m):
             if repo.exists(rel):
                 overlay[rel] = rename_locals(repo.source(rel))
         return overlay
-    if m['edits'] in ('FLIPCMP', 'SWAPIF', 'RETTMP', 'COMPVARS', 'HOISTARG'):
+    if m['edits'] in ('FLIPCMP', 'SWAPIF', 'RETTMP', 'COMPVARS', 'HOISTARG') + TREE2:
         from ..srcmodel import MBI_FILES, MECH_FILES
         for rel in MBI_FILES + MECH_FILES:
             if repo.exists(rel):
